@@ -337,6 +337,10 @@ Definition wake (b : bool) (x : sim) : sim := set_out (o_rreg x) (o_wreg x) (o_w
 
 Section Poll.
   Variable c : cfg.
+  (* fuel of the two outer loops (poll_response's 'res loop and the response/flush loop of poll):
+     the driver passes a number larger than the total number of items, handler actions and body
+     actions of the scenario; running out of it sets [bad] *)
+  Variable F : nat.
 
   (* perform one event: the only way [m] changes *)
   Definition do_ev (e : ev) (x : sim) : sim :=
@@ -449,7 +453,7 @@ Section Poll.
     (* can_read: need_read is evaluated unless READ_DISCONNECT *)
     let x1 := if rd_disc (m x) then x else do_ev EvNeedRead x in
     if full || negb (can_read (m x)) then (x1, false)
-    else decode_loop (S (S (2 * length (todo x)))) (do_ev EvGate x1) false.
+    else decode_loop (4 + 2 * length (todo x)) (do_ev EvGate x1) false.
 
   (* ---- poll_response ---- *)
   Inductive sp_out := SpPending | SpDrain | SpEnd.
@@ -529,7 +533,7 @@ Section Poll.
     match fuel with
     | O => (set_bad x, None)
     | S f =>
-        let '(x1, drain) := poll_response (S (S (3 * (length (q (m x)) + length (todo x)) + 6))) x in
+        let '(x1, drain) := poll_response F x in
         let '(x2, fr) := poll_flush_c x1 in
         match fr with
         | FlWriteZero | FlIoErr => (x2, Some PFailIo)
@@ -565,7 +569,7 @@ Section Poll.
     let queue_was_full := c_maxp c <=? lenN (q (m x1)) in
     let '(x2, _) := poll_request x1 in
     let x3 := if should_disconnect then do_ev EvEof (wake (tgt_task (m x2)) x2) else x2 in
-    let '(x4, fail) := resp_flush_loop (S (S (length (body x3)))) x3 in
+    let '(x4, fail) := resp_flush_loop F x3 in
     match fail with
     | Some r => (x4, r)
     | None =>
